@@ -433,6 +433,9 @@ impl Context {
                 if let Some(err) = task.err() {
                     self.proc.set_err(&err);
                 }
+                // the task event above wrote the process row before the process took over
+                // the error and its final end time
+                self.runtime.cache().upsert(task)?;
                 self.runtime.scher().emit_proc_event(&self.proc);
             }
         }
